@@ -12,14 +12,18 @@
      - packing of a SECRET integer (Proofs/PackValues.v): pack is the decomposition into bitlen(m-1) boolean witnesses, unpack their
        recomposition (a pure linear combination) asserted below m; whenever the round trip does not raise, the unpacked object
        carries the packed value (C16_pack_unpack_secret; with the adversarial theorems above: the bits are forced).
-   Not proved in Coq: structured schemas (PackList / PackRepeat offsets); they are in the model
+     - EVERY schema (Proofs/PackSchema.v): for every schema built from booleans, bounded integers, non-empty lists and repetitions
+       (any nesting) and every plain value fitting it, pack gives exactly bitlen(schema) bits and unpack gives the value back,
+       allocating nothing and emitting nothing (C16_pack_unpack_every_schema; by induction over schemas with the offsets
+       arithmetic of PackList / PackRepeat).
+   Not proved in Coq: structured schemas with SECRET leaves (the leaf case is C16_pack_unpack_secret); they are in the model
    (Prog.pack_v / unpack_v), tied to the code by the correspondence, and decided by round-trip runs over generated schemas
    and by the witness-space search at widths different from the global bitlength. *)
 From Coq Require Import ZArith List Bool Lia Znumtheory.
 From PySnark.Base Require Import FieldZ Bits.
 From PySnark.Model Require Import Lc Sym Good Gadgets.
 From PySnark.Model Require Import Api Prog.
-From PySnark.Proofs Require Import Meta Sound Wp WpBase GadgetsOK Values Adv AdvGadgets PackCore PackValues.
+From PySnark.Proofs Require Import Meta Sound Wp WpBase GadgetsOK Values Adv AdvGadgets PackCore PackValues PackSchema.
 Import ListNotations.
 Open Scope Z_scope.
 
@@ -67,7 +71,24 @@ Theorem C16_pack_unpack_secret : forall (p : Z) ins ig (c : cfg) m (x : Sym.slc 
   Wp.wp ins ig (pk <- pack_v (KIntMod m) (PLC x) ;; match pk with PList bits => unpack_v c (KIntMod m) bits 0 | _ => static_raise TypeError end) s sg Q.
 Proof. intros p ins ig c m x s sg Q. exact (pack_unpack_secret ins ig c m x s sg Q). Qed.
 
+(* every schema, every plain value fitting it *)
+Theorem C16_pack_unpack_every_schema : forall (p : Z) (c : cfg) (k : pschema) (v : Api.pyval p) (s : @Gadgets.gst p), fits k v ->
+  exists bits, run (pack_v k v) s = (inl (PList bits), s, []) /\ length bits = sch_bitlen k /\
+               run (unpack_v c k bits 0) s = (inl v, s, []).
+Proof. intros p c. exact (pack_unpack_schema c). Qed.
+(* non-vacuity: a nested schema and a value fitting it *)
+Example C16_schema_example : forall p : Z,
+  fits (p:=p) (KList [KBool; KIntMod 10; KRepeat (KIntMod 5) 2; KList [KIntMod 1; KBool]])
+       (PList [PInt 1; PInt 7; PList [PInt 3; PInt 4]; PList [PInt 0; PInt 0]]).
+Proof.
+  intros p. cbn [fits]. eexists. split; [reflexivity|]. split; [discriminate|]. repeat split; try (right; reflexivity); try (left; reflexivity).
+  - eexists. split; [reflexivity|lia].
+  - eexists. split; [reflexivity|]. split; [reflexivity|]. split; [lia|]. repeat split; eexists; (split; [reflexivity|lia]).
+  - eexists. split; [reflexivity|]. split; [discriminate|]. repeat split; [eexists; split; [reflexivity|lia]|left; reflexivity].
+Qed.
+
 Print Assumptions C16_pack_unpack_intmod.
+Print Assumptions C16_pack_unpack_every_schema.
 Print Assumptions C16_pack_unpack_secret.
 Print Assumptions C16_bits_recompose.
 Print Assumptions C16_honest_bits.
